@@ -31,6 +31,24 @@ plain violation.
 
 The yacc and lex parsers are impl-only oracles here (their mirrors are plugged
 in by C10/C11).
+
+Rendering ("... so it can always be rendered"): EVERY error and warning returned
+on EVERY generated text — by the three parsers, by both yacc routes, and by the
+conversions of the parsed section's values into enums (YaccKind::try_from,
+which ASTWithValidityInfo::from_str / YaccGrammar::from_str call; RecoveryKind,
+SerialisationFormat, LexerKind, LexFlags, which the builders and nimbleparse
+call) — is pushed through lrpar's SpannedDiagnosticFormatter the way the tools
+print it (format_error / format_warning / file_location_msg) under
+catch_unwind.  Oracle: no panic, a non-empty rendering, and the first line
+number printed (by format_* and by file_location_msg) = 1 + the number of '\n'
+before the start of the diagnostic's first span.  A family of near-valid enum
+VALUES (wrong namespace / member / argument namespace / argument, several at
+once, other shapes; one-line and multi-line layouts) makes errors with 2, 3 and
+4 spans under SpansKind::Error occur in every run.  YaccKind::try_from and
+SerialisationFormat::try_from are mirrored (theories/C12/Conv.v; proved: Ok iff
+a documented form, error spans = exactly the faulty components in source order,
+1..4 of them, all well-formed on what the section parser returns) and tied on
+EVERY entry of EVERY section that parses.
 """
 import re
 from vlib import core
@@ -58,6 +76,37 @@ K_LEXSPAN = "lex: error spans are relative to the text after the %grmtools secti
 K_LEXTARGET = "lex: DuplicateName span of a rule with a target state ignores the <S> prefix (C11) and can split a multi-byte character of the name"
 
 TIMEOUT_ENV = {"GVH_CASE_TIMEOUT_MS": "2000"}
+
+# /tmp/wta-c12/audit/1: one InvalidEntry("yacckind") error (SpansKind::Error) with 2, 4, 2 spans; format_error hit
+# unreachable!() at the second span (fixed in /repo 87315cb)
+AUDIT_MULTISPAN = [
+    "%grmtools{yacckind: Foo::Bar}\n%%\nS: ;\n",
+    "%grmtools{yacckind: YaccKnd::Orignal(YaccOriginalActionKnd::NoActon)}\n%%\nS: ;\n",
+    "%grmtools{yacckind: Original(X::Y)}\n%%\nS: ;\n",
+]
+CONV_TAGS = {"k": "YaccKind::try_from (HeaderError<Span>)", "K": "YaccKind::try_from (as YaccGrammarError)",
+             "s": "SerialisationFormat::try_from", "l": "LexerKind::try_from", "r": "RecoveryKind::try_from",
+             "f": "LexFlags::try_from", "e": "the parser", "w": "the parser (warning)"}
+
+
+def render_records(out):
+    """([R records], [RENDERPANIC segments], [RSKIP segments]) of a harness line"""
+    recs, panics, skips = [], [], []
+    for seg in out.split(" # ")[1:]:
+        f = seg.split(" ")
+        if f[0] == "R" and len(f) >= 10:
+            recs.append({"tag": f[1], "idx": int(f[2]), "sk": f[3], "n": int(f[4]), "start": int(f[5]),
+                         "fline": f[6], "lline": f[7], "col": f[8], "len": int(f[9])})
+        elif f[0] == "RENDERPANIC":
+            panics.append(seg)
+        elif f[0] == "RSKIP":
+            skips.append(seg)
+    return recs, panics, skips
+
+
+def conv_segments(line):
+    """the ` # YK …` / ` # SF …` segments (mirrored conversions) of a harness or mirror line"""
+    return [seg for seg in line.split(" # ")[1:] if seg.startswith(("YK ", "SF "))]
 
 
 def hx(s):
@@ -132,6 +181,18 @@ def generate(ctx):
                 for w in ws_:
                     add(w, h + tail, "deep")
                     DEEP_RECIPE.setdefault(h + tail, DEEP_RECIPE[h] + " + %r" % tail)
+    # ---- enum values of the section (yacckind / recoverer / serialisation_format / lexerkind): the audit's three
+    # texts first, then the near-valid family; through the section parser (both `required`), both from_str routes
+    # of the yacc parser (where YaccKind::try_from runs) and the lex parser
+    for t in AUDIT_MULTISPAN:
+        add("ZF", t, "corpus")
+        add("YF", t, "corpus")
+        add_h(t, "corpus")
+    for h in c12gen.enum_value_headers(rng, ctx.n(60, 1500)):
+        add_h(h, "enum")
+        add("YF", h + c12gen.YACC_BODY, "enum")
+        add("ZF", h + c12gen.YACC_BODY, "enum")
+        add("L", h + c12gen.LEX_BODY, "enum")
     for t in c12gen.LEX_CORPUS:
         add("L", t, "corpus")
     for k, t in c12gen.YACC_CORPUS:
@@ -365,6 +426,10 @@ def run(ctx):
     ndiff = 0
     ncorr = 0
     nwitness = 0
+    n_err_rendered = n_warn_rendered = n_conv_rendered = 0
+    n_multi = {}            # tag -> number of rendered SpansKind::Error diagnostics with >= 2 spans
+    n_multi_by_count = {}   # number of spans -> how many
+    nconv = nconv_diff = nconv_err = 0
     deferred = []      # correspondence-only reports: after the property-level witnesses
     for (w, t, origin), line, out in zip(selected, lines, impl):
         rq = 1 if w == "H1" else 0
@@ -403,6 +468,47 @@ def run(ctx):
             bad = "a grammar was returned although the AST carries errors"
         elif cls not in ("OK", "ERRS"):
             bad = "unexpected harness output"
+        # ---- rendering of everything that was returned
+        recs, rpanics, rskips = render_records(out)
+        if recs or rpanics:
+            tb = t.encode("utf-8")
+        render_bad = None
+        for r in recs:
+            want = str(1 + tb[:r["start"]].count(b"\n"))
+            if r["tag"] == "e":
+                n_err_rendered += 1
+            elif r["tag"] == "w":
+                n_warn_rendered += 1
+            else:
+                n_conv_rendered += 1
+            if r["sk"] == "E" and r["n"] >= 2:
+                n_multi[r["tag"]] = n_multi.get(r["tag"], 0) + 1
+                n_multi_by_count[r["n"]] = n_multi_by_count.get(r["n"], 0) + 1
+            if r["len"] == 0:
+                render_bad = "the rendering of a returned diagnostic (%s) is empty" % CONV_TAGS.get(r["tag"], r["tag"])
+            elif r["fline"] != want or r["lline"] != want:
+                render_bad = ("the rendering of a returned diagnostic (%s, first span starts at byte %d) reports line %s "
+                              "(format_*) / %s (file_location_msg), the span starts on line %s"
+                              % (CONV_TAGS.get(r["tag"], r["tag"]), r["start"], r["fline"], r["lline"], want))
+        if not bad:
+            head = out.split(" # ")[0].split(" ")
+            n_errs = int(head[1]) if cls == "ERRS" and len(head) > 1 else 0
+            n_e = sum(1 for x in recs if x["tag"] == "e") + sum(1 for x in rpanics + rskips if x.split(" ")[1] == "e")
+            mw = re.search(r" # W (\d+)", out)
+            n_w = sum(1 for x in recs if x["tag"] == "w") + sum(1 for x in rpanics + rskips if x.split(" ")[1] == "w")
+            if rpanics:
+                f = rpanics[0].split(" ")
+                bad = ("rendering a returned diagnostic panics: %s of an error of %s with %s span(s) of SpansKind %s: %s"
+                       % ("format_warning" if f[1] == "w" else "format_error", CONV_TAGS.get(f[1], f[1]), f[4],
+                          {"E": "Error", "D": "DuplicationError"}.get(f[3], f[3]), " ".join(f[5:])[:200]))
+            elif "CONVPANIC" in out:
+                bad = "PANIC in the conversion of a parsed value: " + out.split(" # CONVPANIC ")[1][:200]
+            elif "CONVNOLOC" in out:
+                bad = "a value conversion error without a span: " + out.split(" # CONVNOLOC ")[1].split(" ")[0]
+            elif render_bad:
+                bad = render_bad
+            elif rskips or n_e != n_errs or (mw and n_w != int(mw.group(1))):
+                bad = "unexpected harness output (not every returned diagnostic was rendered)"
         nontriv = (origin != "random" or cls == "ERRS") and len(t) > 0
         ctx.case(sk, nontriv, {"which": w, "text": t[:200], "impl": out[:200]} if origin == "valid" else None)
         if bad:
@@ -430,7 +536,20 @@ def run(ctx):
             o = out.split(" # ")[0]
             o = "PANIC" if o.startswith("PANIC") else o
             ncorr += 1
-            if o != mt:
+            # the conversions of the parsed values (YaccKind, SerialisationFormat): impl = mirror on every entry
+            ci, cm = conv_segments(out), conv_segments(mt)
+            nconv += len(cm)
+            nconv_err += sum(1 for x in cm if " ERR " in x)
+            if ci != cm and "CONVPANIC" not in out and o == mt.split(" # ")[0]:
+                nconv_diff += 1
+                d = dict(base)
+                dif = [(a, b) for a, b in zip(ci, cm) if a != b][:3] or [(len(ci), len(cm))]
+                d.update({"mirror": " # ".join(cm)[:600], "impl_conversions": " # ".join(ci)[:600], "first_differences": dif,
+                          "broken": "correspondence YaccKind::try_from / SerialisationFormat::try_from <-> C12/Conv.v "
+                                    "(C12_yacckind_conv_ok_iff, C12_yacckind_conv_err_spans, C12_serformat_conv_spec, "
+                                    "C12_conv_error_spans_wellformed speak about the mirror)"})
+                deferred.append(d)
+            if o != mt.split(" # ")[0]:
                 ndiff += 1
                 if not bad:
                     # both are value-or-located-errors outcomes but differ: the theorems are about a
@@ -445,6 +564,20 @@ def run(ctx):
     for d in deferred[:20]:
         ctx.violation(d, no_input=True)
     ctx.oblige(ndiff == 0, "header correspondence (impl = %s mirror) on %d runs" % (variant, ncorr))
+    ctx.oblige(nconv_diff == 0 and nconv > 0, "value conversions (YaccKind::try_from, SerialisationFormat::try_from) = mirror "
+               "on %d conversions of parsed values (%d of them errors)" % (nconv, nconv_err))
+    # multi-span errors of SpansKind::Error really occurred, through the parsers' own entry points
+    ctx.oblige(n_multi.get("e", 0) > 0 and all(n_multi_by_count.get(k, 0) > 0 for k in (2, 3, 4)),
+               "errors with 2, 3 and 4 spans under SpansKind::Error were returned and rendered (%r; by source %r)"
+               % (n_multi_by_count, n_multi))
+    ctx.coverage["errors_rendered"] = n_err_rendered
+    ctx.coverage["warnings_rendered"] = n_warn_rendered
+    ctx.coverage["conversion_errors_rendered"] = n_conv_rendered
+    ctx.coverage["multi_span_errors"] = sum(n_multi.values())
+    ctx.coverage["multi_span_errors_by_span_count"] = {str(k): v for k, v in sorted(n_multi_by_count.items())}
+    ctx.coverage["multi_span_errors_returned_by_a_parser_entry_point"] = n_multi.get("e", 0)
+    ctx.coverage["value_conversions_compared"] = nconv
+    ctx.coverage["value_conversion_errors_compared"] = nconv_err
     if DEPTH_FIXED:
         # the deep-nesting texts were really compared (not skipped, not lost): every one of them,
         # with both values of `required` and on the 8 MiB stack
@@ -469,9 +602,12 @@ def run(ctx):
                             "ASTWithValidityInfo + new_from_ast_with_validity_info, through YaccGrammar::new and (with a section of each kind) "
                             "through both from_str routes, every truncation through YaccGrammar::new; generated yacc samples also through "
                             "YaccGrammar::new; non-trivial = non-empty text that is not pure random noise "
-                            "accepted silently; distinct by token skeleton (letters/digits/non-ASCII runs collapsed) per parser"
+                            "accepted silently; %d sections with near-valid enum values for yacckind / recoverer / serialisation_format / lexerkind "
+                            "(namespace x member x argument namespace x argument, each right / absent / misspelt; other shapes; one-line and "
+                            "multi-line), each through the section parser, both from_str routes and the lex parser; distinct by token skeleton (letters/digits/non-ASCII runs collapsed) per parser"
                             % (len(c12gen.ODD_CHARS), len(c12gen.ODD_YACC) + len(c12gen.ODD_LEX) + len(c12gen.ODD_HEADERS),
-                               len(c12gen.LEX_WLC), len(c12gen.LEX_WLC_OPT), len(c12gen.YACC_PREC)))
+                               len(c12gen.LEX_WLC), len(c12gen.LEX_WLC_OPT), len(c12gen.YACC_PREC),
+                               sum(1 for c in cases if c[2] == "enum" and c[0] == "H0")))
     ctx.coverage["odd_char_cases"] = sum(1 for c in cases if c[2] == "odd")
     ctx.coverage["exhaustive"] = False
     ctx.coverage["cases_generated"] = len(cases)
@@ -490,4 +626,9 @@ def run(ctx):
          "runs on an unbounded stack and generated nesting stays below 10; the overflow itself is the known finding probed by the HS cases"),
         "yacc and lex parsers: impl-only oracle in this check (no mirror yet)",
         "'promptly' is taken as 2 s per text (texts are < 2 KB)",
+        "rendering: lrpar::diagnostics::SpannedDiagnosticFormatter is run, not mirrored, here (its rows are C19's subject: "
+        "C12_format_spanned_any_number_of_spans re-exports C19's theorem); C12/Conv.v models only its dispatch on (SpansKind, span number); "
+        "the reference line number is 1 + the number of '\\n' bytes before the span",
+        "RecoveryKind / LexerKind / LexFlags conversions: impl-only oracle (no panic, an error has >= 1 location, every location a "
+        "well-formed span, renders); YaccKind and SerialisationFormat are mirrored",
     ]
